@@ -96,3 +96,22 @@ Proof.
   intros v Hwf. destruct containers_static as (H1 & H2 & H3 & H4 & H5 & H6).
   exact (roundtrip_change gen_schema (d_of "Change") (d_of "OSM") v H2 H6 H1 H3 H5 Hwf).
 Qed.
+
+(* ---------- the marshalled text of an object is read by the streaming scanner ---------- *)
+From Verif Require Import Codec.Scan.
+
+Theorem scanner_reads_object : forall T nm v,
+  In (T, nm) top_objects ->
+  wfb gen_schema T v = true ->
+  exists e, encode1 gen_schema T v = Ok e /\ scan_el gen_schema e = ([(T, v)], None).
+Proof.
+  intros T nm v Hin Hwf. destruct (roundtrip_object T nm v Hin Hwf) as [e [He [Hd Hn]]].
+  exists e. split; [exact He|]. destruct e as [n a k t]. cbn [xname] in Hn. subst n.
+  cbn [top_objects In] in Hin.
+  repeat (destruct Hin as [Hin|Hin]; [inversion Hin; subst; clear Hin|]); try contradiction;
+    cbn [scan_el];
+    match goal with |- context[assoc_str scan_kinds (lower_ascii ?s)] =>
+      let r := eval vm_compute in (assoc_str scan_kinds (lower_ascii s)) in
+      change (assoc_str scan_kinds (lower_ascii s)) with r end;
+    cbv iota beta; rewrite Hd; reflexivity.
+Qed.
